@@ -281,7 +281,14 @@ def _sibling(fn, pid, tier):
 def with_shared(base_fn, shares):
     """shares: list of (sibling check function, {sibling rule id: new id}, reason)"""
     def run_(tier):
-        rep = base_fn(tier)
+        try:
+            rep = base_fn(tier)
+        except AnalysisBroken as ex:
+            # the property's own engines lost an anchor: its own rules are undecided (exit 2 unless something else is found), but the
+            # necessary conditions it shares with siblings are still evaluated - a violation of one of them is a violation of this property
+            pid_ = next(iter(shares[0][1].values())).split('.')[0]
+            rep = Report(pid_, tier, 'own analysis broken: %s' % ex, assumptions=[], trusted=TRUSTED)
+            rep.rule(pid_ + '.own', 'the rules of this property itself', floor=0).unknown('own analysis', str(ex))
         for sib, mapping, why in shares:
             try:
                 other = sib(tier)
@@ -306,6 +313,8 @@ c01 = with_shared(_c01, [(_c03, {'C03.f': 'C01.h'}, 'a call binds the record of 
                          (c10, {'C10.a': 'C01.i', 'C10.d': 'C01.i2'}, 'macro temporaries of different expansions never coincide, so expansion preserves the meaning of nested macro uses'),
                          (c07, {'C07.h': 'C01.m'}, 'the value of a user-named variable of a live activation is the word at that activation\'s own data_start + register: the view through which "every user-named variable of every live activation" is read'),
                          (c20, {'C20.A1': 'C01.n'}, 'x+c and truncated x-c are computed in a wider type and saturate: no signed overflow in the machine\'s arithmetic'),
+                         (c15, {'C15.I4': 'C01.p'}, 'a source split over included files means the text with every include directive replaced by the named file: no directive is dropped'),
+                         (c18, {'C18.P2': 'C01.q'}, 'a compilation depends on its input only: no function of the compiler keeps detectors, tables or names from an earlier call'),
                          (_c08, {'C08.a': 'C01.o'}, 'arming a line rewrites marker instructions only: the sites listed for a line are the positions of its POTENTIAL_BREAKs, so no instruction of the program is overwritten'),
                          (c09, {'C09.a': 'C01.l3', 'C09.b': 'C01.l4', 'C09.d': 'C01.l5'}, 'which macro use is rewritten (highest priority, then leftmost, then longest) and where its body is spliced in is part of what a source with macros means'),
                          (c09, {'C09.e': 'C01.l', 'C09.f': 'C01.l2'}, 'a macro use means its body with every $n replaced by what slot n matched, and a literal of the pattern matches by kind and (identifiers, integers, operators) by text: otherwise a program using macros computes something else')])
@@ -333,7 +342,8 @@ c06 = with_shared(_c06, [(_c08, {'C08.c': 'C06.j'}, 'the location reported at a 
                          (_c05, {'C05.d': 'C06.h'}, 'resuming is a loop of single steps that returns at the first step that reports a stop, and not before'),
                          (_c05, {'C05.b': 'C06.f'}, 'break handlers advance by exactly one instruction, so no site is skipped and the location lookup finds the site just passed'),
                          (_c08, {'C08.a': 'C06.g', 'C08.b': 'C06.g2'}, 'the site armed for a location is the marker emitted for that location and line_info names the same location for it, so a stop is reported at the line that was enabled')])
-c07 = with_shared(_c07, [(_c01, {'C01.f': 'C07.p'}, 'a user variable has a register of its own and is listed: no temporary is registered under a name a user variable can have, none is used after its release'),
+c07 = with_shared(_c07, [(c18, {'C18.P2': 'C07.q'}, 'a variable view shows this activation only: the accessor keeps nothing from an earlier call'),
+                         (_c01, {'C01.f': 'C07.p'}, 'a user variable has a register of its own and is listed: no temporary is registered under a name a user variable can have, none is used after its release'),
                          (_c03, {'C03.e': 'C07.n'}, 'every parameter has a register (and stack-map entry) of its own, so the view shows each variable with its own value'),
                          (c17, {'C17.Z1': 'C07.l'}, 'after a reset no activation of the earlier run is left: the view lists the activations of this run only'),
                          (_c06, {'C06.d': 'C07.m'}, 'the line reported at a stop is the line of the site that was just passed'),
@@ -376,7 +386,8 @@ _c10 = c10
 c10 = with_shared(_c10, [(_c03, {'C03.g': 'C10.f'}, 'different names denote different variables only if the register numbers they are mapped to are kept whole: no operand type narrower than the numbers the generator computes'),
                          (c14, {'C14.L2': 'C10.g'}, 'equal n means equal spelling: the scanner admits exactly one spelling of a temporary\'s number (no leading zeros)'),
                          (_c11, {'C11.a': 'C10.e'}, 'every rewriting step has a pass number of its own: at most one rewrite per iteration of the budget loop, whose counter is the number the temporaries are named after')])
-c19 = with_shared(_c19, [(c17, {'C17.Z1': 'C19.F4'}, 'reset() returns the data memory and the activation stack to the constructor state: frames of calls that were pending at the reset are released'),
+c19 = with_shared(_c19, [(c18, {'C18.P1': 'C19.F7'}, 'the data memory belongs to one machine: it is a member of the VM object, not an object with static storage that all machines share'),
+                         (c17, {'C17.Z1': 'C19.F4'}, 'reset() returns the data memory and the activation stack to the constructor state: frames of calls that were pending at the reset are released'),
                          (_c03, {'C03.g': 'C19.F5'}, 'every jump of compiled code is resolved to a label of its own routine, so an activation that was entered is left through its RET and its frame is released'),
                          (_c04, {'C04.e': 'C19.F6'}, 'marks are resolved per routine and unknown marks rejected: no jump leaves a routine without returning')])
 
